@@ -18,15 +18,17 @@
 #include <fcntl.h>
 #include <pthread.h>
 #include <stdatomic.h>
+#include <sys/syscall.h>
 typedef void (*cb_t)(const volatile void *addr, unsigned size, int op, uint64_t o, uint64_t n, const char *func, int line);
 extern cb_t _dispatch_verif_atomic_cb;
 extern volatile void *_dispatch_verif_queue_state_addr(dispatch_queue_t dq);
 extern void _dispatch_verif_io_peek(dispatch_io_t channel, dispatch_queue_t *bq, dispatch_group_t *bg, volatile void **group_state);
 static uint64_t rs; static uint64_t rnd(void){ rs += 0x9E3779B97F4A7C15ull; uint64_t z=rs; z=(z^(z>>30))*0xBF58476D1CE4E5B9ull; z=(z^(z>>27))*0x94D049BB133111EBull; return z^(z>>31); }
-typedef struct { uint64_t seq; int kind; long id; } ev_t;   // kind: 0 sub-op 1 sub-bar 2 enter 3 leave 4 suspend 5 ran 6 resume
+typedef struct { uint64_t seq; int kind; long id; int tid; } ev_t;   // kind: 0 sub-op 1 sub-bar 2 enter 3 leave 4 suspend 5 ran 6 resume
 #define MAXEV (1<<18)
 static ev_t evs[MAXEV]; static atomic_ulong nev, seq; static volatile void *GS, *QS; static atomic_int tracing;
-static void rec(int kind, long id){ unsigned long k=atomic_fetch_add(&nev,1); if(k>=MAXEV) return; evs[k]=(ev_t){atomic_fetch_add(&seq,1),kind,id}; }
+static __thread int mytid;
+static void rec(int kind, long id){ if(!mytid) mytid=(int)syscall(SYS_gettid); unsigned long k=atomic_fetch_add(&nev,1); if(k>=MAXEV) return; evs[k]=(ev_t){atomic_fetch_add(&seq,1),kind,id,mytid}; }
 static void cb(const volatile void *addr, unsigned size, int op, uint64_t o, uint64_t n, const char *func, int line){ (void)size;(void)o;(void)n;(void)line;
   if(!atomic_load(&tracing)) return;
   if(addr==GS){ if(!strcmp(func,"dispatch_group_enter")) rec(2,0); else if(!strcmp(func,"dispatch_group_leave") && op==5) rec(3,0); }
@@ -71,5 +73,5 @@ int main(int argc,char**argv){ uint64_t seed=argc>1?strtoull(argv[1],0,0):1; int
   unsigned long ne=atomic_load(&nev); if(ne>MAXEV) ne=MAXEV;
   // events of one scenario are contiguous in seq order; sort by seq (insertion into a copy is fine: nearly sorted)
   for(unsigned long i=1;i<ne;i++){ ev_t e=evs[i]; long j=(long)i-1; while(j>=0 && evs[j].seq>e.seq){ evs[j+1]=evs[j]; j--; } evs[j+1]=e; }
-  for(unsigned long i=0;i<ne;i++){ if(i==k0) printf("S 1\n"); printf("E %d %ld\n",evs[i].kind,evs[i].id); }
+  for(unsigned long i=0;i<ne;i++){ if(i==k0) printf("S 1\n"); printf("E %d %ld %d\n",evs[i].kind,evs[i].id,evs[i].tid); }
   return viol?1:0; }
